@@ -39,3 +39,60 @@ Definition c10_model (alg k d : nat) (f : list QcPoly) (inits : list (list Qc)) 
 Definition c10_tree (alg k d : nat) (f : list QcPoly) (shape : ptree nat)
            (inits : list (list Qc)) (t : Qc) (num : nat) : list Z :=
   show_vecs (pytree_expand (fun v i t' => c10_alg alg v i t' num) (mkVF k d f) shape inits t).
+
+(* ================================================================= C11 *)
+From PD Require Import Model.JetLift Run.GenRun.
+
+Definition QcJF := @jetfun Qc.
+Definition jfp (k d : nat) (ps : list QcPoly) : QcJF := jf_of_polys k d ps.
+
+(* fun(jet_coords=coords, t=t) *)
+Definition c11_eval (k d : nat) (ps : list QcPoly) (coords : list (list Qc)) (t : Qc) : list Z :=
+  showQc (jf_eval (jfp k d ps) coords t).
+
+(* lifted(jet_coords=coords, t=t): [0] = ValueError, else the outputs order by order *)
+Definition c11_lift (k d : nat) (ps : list QcPoly) (lift_by : Z) (coords : list (list Qc)) (t : Qc)
+  : list Z :=
+  show_vecs (lift (jfp k d ps) lift_by coords t).
+
+(* (num_tcoeffs_in_args, tcoeff_indices_output) advertised by ode.jet_lift(lift_by) *)
+Definition c11_ode_signature (k idx : nat) (lift_by : Z) : list Z :=
+  let '(k', out) := ode_lift_signature k idx lift_by in k' :: map Z.of_nat out.
+Definition c11_ode_lift_max_by (idx : nat) (num_tcoeffs : Z) : list Z :=
+  [ode_lift_max_by idx num_tcoeffs].
+Definition c11_res_lift_max_by (k : nat) (num_tcoeffs : Z) : list Z :=
+  [res_lift_max_by k num_tcoeffs; res_lift_signature k (res_lift_max_by k num_tcoeffs)].
+
+(* residual_from_ode(ode).jet_lift(lift_by) *)
+Definition c11_res_from_ode (k d : nat) (f : list QcPoly) (lift_by : Z) (coords : list (list Qc))
+           (t : Qc) : list Z :=
+  show_vecs (lift (residual_from_ode_jf (jfp k d f)) lift_by coords t).
+(* residual_from_ode(ode.jet_lift(lift_by)) *)
+Definition c11_res_from_lifted (k d : nat) (f : list QcPoly) (lift_by : Z)
+           (coords : list (list Qc)) (t : Qc) : list Z :=
+  show_vecs (residual_from_lifted (jfp k d f) lift_by coords t).
+
+(* residual_from_stack(r1.jet_lift(m1), r2.jet_lift(m2), ...): parts = (k, polys, lift_by);
+   output = num_tcoeffs_in_args of the stack followed by the flattened values *)
+Definition c11_stack (d : nat) (parts : list (nat * list QcPoly * Z)) (coords : list (list Qc))
+           (t : Qc) : list Z :=
+  let rs := map (fun p : nat * list QcPoly * Z =>
+                   lifted_part (jfp (fst (fst p)) d (snd (fst p))) (snd p)) parts in
+  let st := residual_from_stack rs in
+  Z.of_nat (rf_k st) :: show_vecs (rf_eval st coords t).
+
+(* constraint.linearize(rv, state, damp=, t=): kind 0 dense, 1 isotropic, 2 block-diagonal;
+   lin 0 TS0, 1 TS1; mean = the q+1 Taylor coefficient vectors; plain (A, b, Q) per block *)
+Definition c11_linearize (kind lin q d k : nat) (f : list QcPoly) (damp2 : Qc)
+           (mean : list (list Qc)) (t : Qc) : list Z :=
+  let fk := match kind with 0 => Dense | 1 => Iso | _ => BlockDiag end in
+  let s := mkShape fk q d in
+  let cf := fun i a => vget (nth i mean []) a in
+  let m := match fk with
+           | Dense => [mkN (mk (S q * d) 1 (fun r _ => cf (r / d) (r mod d))) []]
+           | Iso => [mkN (mk (S q) d (fun i a => cf i a)) []]
+           | BlockDiag => map (fun a => mkN (mk (S q) 1 (fun i _ => cf i a)) []) (seq 0 d)
+           end in
+  let l := match lin with 0 => TS0 | _ => TS1 end in
+  showQc (Some (flat_map (enc_cond (sh_N s) (sh_nout s) (sh_c s))
+                         (linearize s (mkOde k f) l damp2 m t))).
